@@ -55,6 +55,14 @@ def generate(scope, depth, module="MC", timeout=3600, sim=None, seed=0):
     else:
         res = tlcrun.run(module, mc_cfg(scope, depth, True), workers=NPROC, heap="8g", on_line=on_line,
                          timeout=timeout)
+    if sim and not walkflag and len(groups) > max(150, sim * 12):
+        # the simulator evaluates the emitting invariant on every candidate successor: keep a bounded,
+        # seeded sample that favours the deep designs (the shallow ones are covered exhaustively by BFS)
+        rnd = __import__("random").Random(seed)
+        groups.sort(key=lambda g: (-len(g[0]), json.dumps(g[0], sort_keys=True)))
+        deep = groups[:len(groups) // 2]
+        rnd.shuffle(deep)
+        groups = deep[:max(150, sim * 12)]
     res["lookup"] = list(lookup)
     res["walk"] = bool(walkflag)
     res["walkq"] = any(walkflag)
@@ -78,6 +86,9 @@ def _call_key(c):
     return json.dumps(c, sort_keys=True)
 
 
+TIMEOUTS = [0]     # calls that hit the per-call watchdog in this worker
+
+
 def _run_group(harness, init, hist, cands, listeners):
     """execute every candidate call from the state reached by init+hist; returns the reset record
     and the call records (pre index filled in by the caller) or raises HarnessError"""
@@ -89,7 +100,12 @@ def _run_group(harness, init, hist, cands, listeners):
         head["mirror"] = m0
     recs = []
     errors = []
+    timeouts = 0
     for c in sorted(cands, key=_call_key):
+        if timeouts >= 2 or TIMEOUTS[0] >= 4:      # do not spend the whole budget waiting for a hanging call
+            TIMEOUTS[0] += timeouts
+            timeouts = 0
+            break
         if c["op"] == "seq":      # a pipeline of calls on the same objects: a little chain inside the star
             prev = 0
             s_prev = s0
@@ -118,6 +134,8 @@ def _run_group(harness, init, hist, cands, listeners):
         except harness.HarnessError:
             recs.append(None)
             continue
+        if out == "timeout":
+            timeouts += 1
         s1 = harness.project(reg)
         same = (s1 == s0)
         rec = {"t": "call", "call": c, "out": out, "exc": exc, "same": same}
